@@ -17,6 +17,7 @@ bidder leaves buffered (`bidder_recognises_own_output` needs two more lines).
 -/
 import LA.Lemmas.UuSpecs
 import LA.Lemmas.UuBid
+import LA.Lemmas.Drive
 namespace LA.C03
 open LA.UuRead LA.LineFilter LA.Gen.UuTables
 
@@ -106,5 +107,164 @@ theorem body_is_lines (c : Codec) (x : List Nat) :
   ⟨encAll_pieces c x, fun p hp => ⟨(pieces_mem c.lbytes c.lpos x p hp).1, (pieces_mem c.lbytes c.lpos x p hp).2.1⟩⟩
 
 example : (LA.B64.encLine (List.replicate 57 255)).length = 77 := by decide
+
+/-! ## Part 2: codec-backed filters — what libarchive itself contributes
+
+The compression libraries are parameters (DESIGN.md section 3).  Proved here: the
+write-side driver loop delivers exactly the library's output, and the gzip
+member framing that libarchive writes and parses itself round-trips, also for
+concatenated members. -/
+
+open LA.Drive
+
+/-- **The compressor driver is complete**: for every lawful streaming codec, every
+chunking of the writes and every output-buffer size, the blocks passed
+downstream concatenate to `header ++ comp (all the bytes written) ++ trailer` —
+nothing is lost in the buffer, the tail is flushed on close. -/
+theorem drive_loop_complete (c : ZCodec) (comp : List Nat → List Nat) (L : Lawful c comp)
+    (cap : Nat) (hdr trailer : List Nat) (chunks : List (List Nat)) (hcap : 0 < cap) (hh : hdr.length ≤ cap) :
+    ∃ blocks, LA.Drive.run c cap hdr trailer chunks = some blocks ∧
+      blocks.flatten = hdr ++ comp chunks.flatten ++ trailer := by
+  have h0 : LA.Drive.Inv L cap hdr ({ z := c.init, buf := hdr } : DState c) [] :=
+    ⟨by simp [L.init_emit], L.init_abs, hh⟩
+  obtain ⟨d1, e1, e2⟩ := foldl_write L cap hdr hcap chunks _ [] h0
+  obtain ⟨d2, f1, f2⟩ := driveLoop_finish L cap hdr hcap _ d1 [] _ rfl e2
+  unfold LA.Drive.run
+  rw [e1]
+  simp only [LA.Drive.close, f1]
+  refine ⟨_, rfl, ?_⟩
+  simp only [List.nil_append, List.append_nil] at f2
+  by_cases ht : trailer = []
+  · simp [ht, f2]
+  · simp only [ht, if_false, List.flatten_append, List.flatten_cons, List.flatten_nil, List.append_nil]
+    rw [f2]
+
+/-- Hence the compressed stream does not depend on how the input was cut into writes,
+nor on the size of the output buffer. -/
+theorem drive_chunking_independent (c : ZCodec) (comp : List Nat → List Nat) (L : Lawful c comp)
+    (cap1 cap2 : Nat) (hdr trailer : List Nat) (c1 c2 : List (List Nat))
+    (h1 : 0 < cap1) (h2 : 0 < cap2) (hh1 : hdr.length ≤ cap1) (hh2 : hdr.length ≤ cap2)
+    (hcat : c1.flatten = c2.flatten) :
+    (LA.Drive.run c cap1 hdr trailer c1).map List.flatten = (LA.Drive.run c cap2 hdr trailer c2).map List.flatten := by
+  obtain ⟨b1, e1, f1⟩ := drive_loop_complete c comp L cap1 hdr trailer c1 h1 hh1
+  obtain ⟨b2, e2, f2⟩ := drive_loop_complete c comp L cap2 hdr trailer c2 h2 hh2
+  simp [e1, e2, f1, f2, hcat]
+
+/-- Non-vacuity: a codec satisfying every law exists ("stored": it copies at most
+`avail_out` bytes per call and reports the end once a finishing call has copied
+everything). -/
+def storeCodec : ZCodec :=
+  { σ := List Nat, init := [],
+    call := fun z inp cap fin =>
+      (z ++ inp.take cap, min inp.length cap, inp.take cap, if fin = true ∧ inp.length ≤ cap then .streamEnd else .ok),
+    rank := fun _ inp fin => inp.length + (if fin then 1 else 0) }
+
+example : Lawful storeCodec id :=
+  { absorbed := id, emitted := id, init_abs := rfl, init_emit := rfl,
+    consumed_le := by intro z inp cap fin; simp [storeCodec]; omega,
+    produced_le := by intro z inp cap fin; simp [storeCodec, List.length_take]; omega,
+    abs_step := by
+      intro z inp cap fin; simp only [storeCodec, id]
+      congr 1; rw [List.take_eq_take_iff]; simp [Nat.min_comm],
+    emit_step := by intro z inp cap fin; rfl,
+    end_spec := by
+      intro z inp cap fin h
+      simp only [storeCodec] at h ⊢
+      by_cases hc : fin = true ∧ inp.length ≤ cap
+      · exact ⟨hc.1, by omega, rfl⟩
+      · simp [hc] at h,
+    no_error := by intro z inp cap fin _; simp only [storeCodec]; split <;> simp,
+    progress := by
+      intro z inp cap fin hcap hwork hok
+      simp only [storeCodec] at hok ⊢
+      have hne : ¬ (fin = true ∧ inp.length ≤ cap) := by intro h; simp [h] at hok
+      rcases hwork with h | h
+      · have : 0 < inp.length := List.length_pos_iff.mpr h
+        simp only [List.length_drop]; omega
+      · subst h
+        have : cap < inp.length := by
+          rcases Nat.lt_or_ge cap inp.length with h | h
+          · exact h
+          · exact absurd ⟨rfl, h⟩ hne
+        simp only [List.length_drop]; omega }
+
+/-- **A gzip member as libarchive writes it reads back**; what follows the member is
+read as further members.  `inflate (deflate x ++ r) = (x, r)` is the assumed law
+of zlib (a deflate stream is self-delimiting).  Holds for every `mtime`
+(`timestamp` option on or off) and compression level. -/
+theorem gzip_frame_roundtrip (inflate : List Nat → Option (List Nat × List Nat)) (deflate : List Nat → List Nat)
+    (crc32 : List Nat → Nat) (hlaw : ∀ x r, inflate (deflate x ++ r) = some (x, r))
+    (mtime level : Nat) (x : List Nat) :
+    gzRead inflate (gzMember deflate crc32 mtime level x) = .eof x := by
+  have := gzRead_member inflate deflate crc32 hlaw mtime level x []
+  rw [List.append_nil] at this
+  rw [this]
+  unfold gzRead
+  simp [peekAtHeader, GzR.cons]
+
+/-- **Multi-member streams**: the concatenation of any number of members — each
+written with its own options — followed by anything that is not a gzip header
+(nothing, zero padding) decodes to the concatenation of the inputs. -/
+theorem multi_member (inflate : List Nat → Option (List Nat × List Nat)) (deflate : List Nat → List Nat)
+    (crc32 : List Nat → Nat) (hlaw : ∀ x r, inflate (deflate x ++ r) = some (x, r))
+    (members : List (Nat × Nat × List Nat)) (junk : List Nat) (hj : peekAtHeader junk = 0) :
+    gzRead inflate ((members.map fun m => gzMember deflate crc32 m.1 m.2.1 m.2.2).flatten ++ junk) =
+      .eof (members.map (·.2.2)).flatten := by
+  induction members with
+  | nil =>
+    unfold gzRead
+    simp [hj]
+  | cons m rest ih =>
+    simp only [List.map_cons, List.flatten_cons, List.append_assoc]
+    rw [gzRead_member inflate deflate crc32 hlaw, ih]
+    rfl
+
+/-- The two-member case of the property text. -/
+theorem gzip_two_members (inflate : List Nat → Option (List Nat × List Nat)) (deflate : List Nat → List Nat)
+    (crc32 : List Nat → Nat) (hlaw : ∀ x r, inflate (deflate x ++ r) = some (x, r))
+    (m1 l1 m2 l2 : Nat) (a b : List Nat) :
+    gzRead inflate (gzMember deflate crc32 m1 l1 a ++ gzMember deflate crc32 m2 l2 b) = .eof (a ++ b) := by
+  have := multi_member inflate deflate crc32 hlaw [(m1, l1, a), (m2, l2, b)] [] (by simp [peekAtHeader])
+  simpa using this
+
+/-- What the model does *not* promise, made explicit: the read filter consumes the
+eight trailer bytes without looking at them (the source carries the TODO), so a
+member with a wrong CRC32 / ISIZE is accepted. -/
+theorem gzip_trailer_not_verified (inflate : List Nat → Option (List Nat × List Nat)) (deflate : List Nat → List Nat)
+    (hlaw : ∀ x r, inflate (deflate x ++ r) = some (x, r)) (mtime level : Nat) (x t : List Nat)
+    (ht : t.length = 8) :
+    gzRead inflate (gzHeader mtime level ++ deflate x ++ t) = .eof x := by
+  conv => lhs; unfold gzRead
+  rw [List.append_assoc, peek_gzHeader]
+  have hdrop : (gzHeader mtime level ++ (deflate x ++ t)).drop 10 = deflate x ++ t := by
+    rw [List.drop_append_of_le_length (by simp [gzHeader, le32])]
+    simp [gzHeader, le32]
+  simp only [Nat.succ_ne_zero, dite_false]
+  split
+  · rename_i h; rw [hdrop, hlaw] at h; simp at h
+  · rename_i x' r' h
+    rw [hdrop, hlaw] at h
+    simp only [Option.some.injEq, Prod.mk.injEq] at h
+    obtain ⟨rfl, rfl⟩ := h
+    have h1 : t.length ≤ ((gzHeader mtime level ++ (deflate x ++ t)).drop 10).length := by rw [hdrop]; simp
+    have h2 : ¬ (t.length < 8) := by omega
+    simp only [h1, dite_true, h2, if_false]
+    rw [List.drop_of_length_le (by omega)]
+    unfold gzRead
+    simp [peekAtHeader, GzR.cons]
+
+/-- The gzip write filter end to end on the model: driver + framing, then the reader. -/
+theorem gzip_filter_roundtrip (c : ZCodec) (deflate : List Nat → List Nat) (L : Lawful c deflate)
+    (inflate : List Nat → Option (List Nat × List Nat)) (crc32 : List Nat → Nat)
+    (hlaw : ∀ x r, inflate (deflate x ++ r) = some (x, r))
+    (cap mtime level : Nat) (chunks : List (List Nat)) (hcap : 10 ≤ cap) :
+    ∃ blocks, LA.Drive.run c cap (gzHeader mtime level)
+        (gzTrailer (crc32 chunks.flatten) chunks.flatten.length) chunks = some blocks ∧
+      gzRead inflate blocks.flatten = .eof chunks.flatten := by
+  obtain ⟨blocks, e1, e2⟩ := drive_loop_complete c deflate L cap (gzHeader mtime level)
+    (gzTrailer (crc32 chunks.flatten) chunks.flatten.length) chunks (by omega) (by simpa [gzHeader, le32] using hcap)
+  refine ⟨blocks, e1, ?_⟩
+  rw [e2]
+  exact gzip_frame_roundtrip inflate deflate crc32 hlaw mtime level chunks.flatten
 
 end LA.C03
